@@ -338,6 +338,66 @@ def _build_function_state_history():
     return sd
 
 
+# ---- equal-but-distinguishable values across a history: 0.0 / -0.0 (different float32 words), True / 1 / 1.0 (the same)
+def _zero_def(z, one):
+    def f(a=z, b=one):
+        Out.kr(5, SinOsc.kr(3, z) * a + SinOsc.kr(one) * b)
+    return SynthDef('x_zero', f)
+
+
+def _build_signed_zero(neg_first):
+    def build():
+        import struct
+        order = [(-0.0, True), (0.0, 1.0), (-0.0, 1), (0.0, True)] if neg_first else [(0.0, 1), (-0.0, 1.0), (0.0, True), (-0.0, 1)]
+        got = {}
+        for z, one in order:
+            got.setdefault(struct.pack('>f', z), []).append(bytes(_zero_def(z, one).as_bytes()))
+        neg, pos = got[struct.pack('>f', -0.0)], got[struct.pack('>f', 0.0)]
+        if len(set(neg)) != 1 or len(set(pos)) != 1:
+            raise SilentDrop('True / 1 / 1.0 as the same constant and default gave different bytes')
+        a, b = neg[0], pos[0]
+        diff = [(x, y) for x, y in zip(a, b) if x != y]
+        if len(a) != len(b) or len(diff) != 2 or any(d != (0x80, 0x00) for d in diff):
+            raise SilentDrop('a definition with the constant and default -0.0 and the same with 0.0 must differ in exactly the two '
+                             'sign bits: %d differing bytes %s (which zero was written first in this process decides?)'
+                             % (len(diff), diff[:4]))
+        return _zero_def(-0.0, 1)
+    return build
+
+
+# ---- the extension registry: a type gets its UGenParameter class AFTER a build failed on it
+_EXT_COUNT = [0]
+_EXT_KEEP = []
+
+
+def _build_extension_registry():
+    import sc3.synth._graphparam as gpp
+    _EXT_COUNT[0] += 1
+    T = type('VerifNumber%d' % _EXT_COUNT[0], (), {'__init__': lambda self, v: setattr(self, 'v', v)})
+
+    def f(amp=0.5):
+        Out.ar(0, SinOsc.ar(T(300), T(0)) * amp)
+    try:
+        SynthDef('x_ext', f)
+    except TypeError:
+        pass
+    else:
+        raise SilentDrop('an input of a type without parameter class was accepted')
+    # (kept alive like a class defined at module level: __subclasses__ holds weak references)
+    _EXT_KEEP.append(type('UGenVerifNumber%d' % _EXT_COUNT[0], (gpp.UGenParameter,), {
+        '_param_type': classmethod(lambda cls: (T,)),
+        '_is_valid_ugen_input': lambda self: True,
+        '_as_ugen_input': lambda self, *_: float(self._param_value.v),
+        '_as_ugen_rate': lambda self: 'scalar'}))
+    sd = SynthDef('x_ext', f)                       # the documented extension interface: now the type is supported
+
+    def g(amp=0.5):
+        Out.ar(0, SinOsc.ar(300.0, 0.0) * amp)
+    if bytes(sd.as_bytes()) != bytes(SynthDef('x_ext', g).as_bytes()):
+        raise SilentDrop('a definition using the newly supported type differs from the one written with plain numbers')
+    return sd
+
+
 def _plain(name, f, *a):
     """A definition built WITHOUT variants / metadata owns fresh, empty ones."""
     def build():
@@ -402,6 +462,9 @@ def good():
         ('env_curverange_interior', lambda: SynthDef('x_envcv', _f_env_curverange_interior)),
         ('env_setter_history', _build_env_history),
         ('outer_data', lambda: SynthDef('x_outer_data', _f_outer_data)),
+        ('signed_zero_neg_first', _build_signed_zero(True)),
+        ('signed_zero_pos_first', _build_signed_zero(False)),
+        ('extension_registry', _build_extension_registry),
         ('function_state_history', _build_function_state_history),
         ('nodefault', _plain('x_nodef', _f_nodefault)),
         ('plain_three', _plain('x_plain3', _f_three)),
